@@ -228,6 +228,19 @@ def step0 (d : DSt) (w : List String) : DSt × String :=
     match h.toNat?, Hex.decode? bits, parseSig d sig with
     | some h, some bs, some s => applyBlock d ⟨h, Bits.ofBytes bs, s⟩
     | _, _, _ => (d, "bad-op")
+  -- `nv <holder> <t|h> ..`: a block of a chosen generator (standby generator, validator removed from the BFT
+  -- set, header declaring maxHeightGenerated = height, ..).  What a block does to the certified height does
+  -- not depend on who generated it or on whether its header implies votes: exactly `block` / `vblock`.
+  | ["nv", _, _, "own"] =>
+    match getAggregateCommit d.state d.pool with
+    | .ok ac => applyBlock d ac
+    | .err => (d, "err")
+    | .panic => (d, "panic")
+  | ["nv", _, _, "empty"] => applyBlock d (emptyCommit d.state)
+  | ["nv", _, _, "agg", h, bits, sig] =>
+    match h.toNat?, Hex.decode? bits, parseSig d sig with
+    | some h, some bs, some s => applyBlock d ⟨h, Bits.ofBytes bs, s⟩
+    | _, _, _ => (d, "bad-op")
   | ["restart"] => ({ d with pool := Pool.empty, lastSel := [] }, "ok")
   | ["clear"] => ({ d with pool := Pool.empty }, "ok")
   | ["cleanup"] =>
@@ -277,7 +290,7 @@ def syncRule (d : DSt) (w : List String) : Option DSt :=
   | "alt" :: _ :: "agg" :: _ => if d.dirty then none else some d
   | "alt" :: _ => some { d with dirty := true }
   | op :: _ =>
-    if ["sc", "certify", "inject", "pool", "cleanup", "select", "upgrade", "getac", "block", "verify", "vblock"].contains op
+    if ["sc", "certify", "inject", "pool", "cleanup", "select", "upgrade", "getac", "block", "verify", "vblock", "nv"].contains op
       && d.dirty then none else some d
   | [] => some d
 
